@@ -207,11 +207,14 @@ func loadEngine(dir string, overlay map[string][]byte) (*Engine, error) {
 			return nil, err
 		}
 		for _, c := range cs {
-			e.contracts[c.Key] = c
-			for k, cc := range c.Closures {
-				_ = k
-				e.contracts[cc.Key] = cc
+			var reg func(c *Contract)
+			reg = func(c *Contract) {
+				e.contracts[c.Key] = c
+				for _, cc := range c.Closures {
+					reg(cc)
+				}
 			}
+			reg(c)
 		}
 		e.contractFiles = append(e.contractFiles, cf)
 	}
@@ -253,6 +256,7 @@ type FuncResult struct {
 	GenMS      int64
 	Script     *Script
 	Assumes    []string
+	Auto       *AutoReplay
 }
 
 func displayName(key string) string {
@@ -434,6 +438,7 @@ func (e *Engine) verifyFunc(key string, timeoutS, seed int, allSolvers bool, sol
 	}
 	fe.top = fr
 	fe.setupEntry(fr)
+	res.Auto = fe.buildAutoReplay(fr)
 	fe.runFunction(fr, fr.entry, fe.paramVals(fr), nil)
 	res.GenMS = time.Since(t0).Milliseconds()
 	if con != nil {
